@@ -71,6 +71,10 @@ FORMS = [
     "(fn(a = 1, b = 2) [a, b])(...A)", "[A, B]", "<<A, B>>",
     "<<<identity(A) => B>>>", "<*a = A*>",
     "def [x, y] = A; [x, y]", "def x = 1; def y = 2; [x, y] = A; [x, y]",
+    # more names than elements (the missing ones are NULL)
+    "for [x, y, z] in A do z end", "for [x, y, z] in entries A do z end",
+    "def [x, y, z] = A; z", "def x = 1; def y = 2; def z = 3; [x, y, z] = A; z",
+    "(fn(a, b = 2, c = 3) c)(...A)",
     # control
     "if A then 1 else 2", "if B then 1 elif A then 2", "while A do break end",
     "error A", "do error B catch A 1 end", "do error A catch all 2 end",
